@@ -1421,6 +1421,9 @@ func (interp *Interpreter) cfg(root *node, sc *scope, importPath, pkgName string
 					if c, ok := c1.rval.Interface().(constant.Value); ok {
 						i, _ := constant.Int64Val(constant.ToInt(c))
 						n.rval = reflect.ValueOf(i).Convert(c0.typ.rtype)
+					} else if t := c0.typ.TypeOf(); isNumber(t) && isComplex(t) != isComplex(c1.rval.Type()) {
+						// Not a conversion of values: the constant is representable in the type.
+						n.rval, _ = check.convertConst(reflect.ValueOf(constValue(c1.rval)), t)
 					} else {
 						n.rval = c1.rval.Convert(c0.typ.rtype)
 					}
